@@ -773,6 +773,58 @@ mod if_alloc {
             }
         }
 
+        #[cfg(futures_intrusive_verif)]
+        impl<MutexType, T> StateReceiveFuture<MutexType, T> {
+            /// Verification hook: the futures own wait node. Must not be
+            /// called while another thread is inside a critical section of
+            /// the channel.
+            pub fn verif_node(&self) -> crate::verif::NodeInfo {
+                super::super::verif_hooks::node_info(&self.wait_node)
+            }
+        }
+
+        #[cfg(futures_intrusive_verif)]
+        impl<MutexType, T> GenericStateSender<MutexType, T>
+        where
+            MutexType: RawMutex,
+            T: Clone + 'static,
+        {
+            /// Verification hook: snapshot of the channel plus handle counts
+            pub fn verif_snapshot(&self) -> crate::verif::Snapshot {
+                let mut snap = self.inner.channel.verif_snapshot();
+                snap.flags.push((
+                    "senders",
+                    self.inner.senders.load(Ordering::SeqCst) as u64,
+                ));
+                snap.flags.push((
+                    "receivers",
+                    self.inner.receivers.load(Ordering::SeqCst) as u64,
+                ));
+                snap
+            }
+        }
+
+        #[cfg(futures_intrusive_verif)]
+        impl<MutexType, T> GenericStateReceiver<MutexType, T>
+        where
+            MutexType: RawMutex,
+            T: Clone + 'static,
+        {
+            /// Verification hook: snapshot of the channel plus handle counts
+            pub fn verif_snapshot(&self) -> crate::verif::Snapshot {
+                let mut snap = self.inner.channel.verif_snapshot();
+                snap.flags.push((
+                    "senders",
+                    self.inner.senders.load(Ordering::SeqCst) as u64,
+                ));
+                snap.flags.push((
+                    "receivers",
+                    self.inner.receivers.load(Ordering::SeqCst) as u64,
+                ));
+                snap
+            }
+        }
+
         // Export parking_lot based shared channels in std mode
         #[cfg(feature = "std")]
         mod if_std {
@@ -811,3 +863,67 @@ mod if_alloc {
 
 #[cfg(feature = "alloc")]
 pub use self::if_alloc::*;
+
+#[cfg(futures_intrusive_verif)]
+mod verif_hooks {
+    use super::*;
+    use crate::verif::{waker_id, NodeInfo, Snapshot};
+
+    pub(crate) fn node_info(node: &ListNode<RecvWaitQueueEntry>) -> NodeInfo {
+        NodeInfo {
+            addr: node as *const _ as usize,
+            state: match node.state {
+                RecvPollState::Unregistered => 0,
+                RecvPollState::Registered => 1,
+            },
+            waker: waker_id(&node.task),
+            extra: node.state_id.0,
+            links: node.verif_links(),
+        }
+    }
+
+    impl StateId {
+        /// Verification hook: the numeric value of the id
+        pub fn verif_value(&self) -> u64 {
+            self.0
+        }
+    }
+
+    impl<MutexType: RawMutex, T> GenericStateBroadcastChannel<MutexType, T> {
+        /// Verification hook: read-only snapshot of the internal state
+        pub fn verif_snapshot(&self) -> Snapshot {
+            let state = self.inner.lock();
+            let mut waiters = alloc::vec::Vec::new();
+            state
+                .waiters
+                .verif_for_each_oldest_first(1 << 16, &mut |n| {
+                    waiters.push(node_info(n))
+                });
+            let mut newest_first = alloc::vec::Vec::new();
+            state
+                .waiters
+                .verif_for_each_newest_first(1 << 16, &mut |n| {
+                    newest_first.push(node_info(n))
+                });
+            Snapshot {
+                flags: alloc::vec![
+                    ("is_closed", state.is_closed as u64),
+                    ("state_id", state.state_id.0),
+                    ("has_value", state.value.is_some() as u64),
+                ],
+                queues: alloc::vec![
+                    ("waiters", waiters),
+                    ("waiters_rev", newest_first)
+                ],
+            }
+        }
+    }
+
+    impl<'a, MutexType, T: Clone> StateReceiveFuture<'a, MutexType, T> {
+        /// Verification hook: the futures own wait node. Must not be called
+        /// while another thread is inside a critical section of the channel.
+        pub fn verif_node(&self) -> NodeInfo {
+            node_info(&self.wait_node)
+        }
+    }
+}
